@@ -37,11 +37,11 @@ template <class T,int index>
 static FixedArray<T>
 BoxArray_get(FixedArray<IMATH_NAMESPACE::Box<T> > &va)
 {
-    return index == 0 ? 
-           FixedArray<T>(&(va.unchecked_index(0).min),
-                         va.len(),2*va.stride(),va.handle(),va.writable()) :
-           FixedArray<T>(&(va.unchecked_index(0).max),
-                         va.len(),2*va.stride(),va.handle(),va.writable());
+    FixedArray<T> r(index == 0 ? &(va.unchecked_direct_index(0).min)
+                               : &(va.unchecked_direct_index(0).max),
+                    va.len(),2*va.stride(),va.handle(),va.writable());
+    r.shareMaskOf (va);
+    return r;
 }
 
 template <class T>
